@@ -3,7 +3,7 @@
 from __future__ import annotations
 
 import logging
-from typing import TYPE_CHECKING
+from typing import TYPE_CHECKING, Protocol
 
 from mxlpy.meta.sympy_tools import (
     fn_to_sympy,
@@ -30,6 +30,24 @@ __all__ = [
 ]
 
 _LOGGER = logging.getLogger(__name__)
+
+
+class _HasArgs(Protocol):
+    args: list[str]
+
+
+def _in_dependency_order[T: _HasArgs](elements: dict[str, T]) -> list[tuple[str, T]]:
+    """Declaration order, but an element is moved behind the elements it uses."""
+    pending = dict(elements)
+    ordered: list[tuple[str, T]] = []
+    while pending:
+        for name, el in pending.items():
+            if not any(arg in pending and arg != name for arg in el.args):
+                break
+        else:  # circular, rejected by the model itself
+            name = next(iter(pending))
+        ordered.append((name, pending.pop(name)))
+    return ordered
 
 
 def _generate_model_code(
@@ -74,34 +92,25 @@ def _generate_model_code(
             )
         )
 
-    # Derived
-    for name, derived in model.get_raw_derived().items():
-        expr = custom_fns.get(name)
-        if expr is None:
-            expr = fn_to_sympy(
-                derived.fn,
-                origin=name,
-                model_args=list_of_symbols(derived.args),
-            )
-        if expr is None:
-            msg = f"Unable to parse fn for derived value '{name}'"
-            raise ValueError(msg)
-        source.append(assignment_template.format(k=name, v=sympy_inline_fn(expr)))
-
-    # Reactions
-    for name, rxn in model.get_raw_reactions().items():
+    # Derived and reactions. A derived value may use a derived value declared after
+    # it or a reaction, so they are written in the order of their dependencies
+    derived = model.get_raw_derived()
+    for name, el in _in_dependency_order(derived | model.get_raw_reactions()):
         expr = custom_fns.get(name)
         if expr is None:
             try:
                 expr = fn_to_sympy(
-                    rxn.fn,
+                    el.fn,
                     origin=name,
-                    model_args=list_of_symbols(rxn.args),
+                    model_args=list_of_symbols(el.args),
                 )
             except KeyError:
+                if name in derived:
+                    raise
                 _LOGGER.warning("Failed to parse %s", name)
         if expr is None:
-            msg = f"Unable to parse fn for reaction value '{name}'"
+            kind = "derived" if name in derived else "reaction"
+            msg = f"Unable to parse fn for {kind} value '{name}'"
             raise ValueError(msg)
         source.append(assignment_template.format(k=name, v=sympy_inline_fn(expr)))
 
